@@ -2,8 +2,9 @@
 (* Judges recorded edit histories of the real engine (harness/fn_lookup.py) against Lookup!Clauses.  *)
 (* TRACE_FILE: [obsets |-> <<observer lists>>, cases |-> << [inp, out, from, exc] >>]               *)
 (*   inp = [ox, probes, init, edits, ...]   out[n + 1] = the observation after edit n (n = 0: after *)
-(*   the initial load) = [ty, rows, probes, cells, errs];  steps 1..from were judged with the       *)
-(*   previous case (same input prefix, identical record) and are blank.                             *)
+(*   the initial load) = [ty, rows, probes, cells, errs, di, dn];  steps 1..from were judged with   *)
+(*   the previous case (same input prefix, identical record) and are blank; di > 0: the same record *)
+(*   (and observers) occurs at step dn of the earlier case di of this file.                         *)
 (* Every step is judged against the table contents RECORDED at that step:                           *)
 (*   C13.match / C13.order / C13.one / C13.raised  the relation of Lookup.tla, per observer x probe *)
 (*   C13.premise      the recorded table, types or probes are not the state Lookup!States says the  *)
@@ -25,14 +26,18 @@ Tags(tab, obs, probe, cell, D) ==
   {"dead:" \o c : c \in DeadCols(tab, obs, probe, cell)} \cup
   (IF FitsStale(tab, obs, probe, cell, D) THEN {"stale"} ELSE {})
 
-StepFails(c, obs, ss, n) ==
+StepFails(c, obs, ss, n, seen) ==
   LET ob  == c.out[n + 1]
       st  == ss[n + 2]
       tab == [ty |-> ob.ty, rows |-> ob.rows]
       premise == ob.ty = st.ty /\ ob.rows = Ranked(st.rows) /\ ob.probes = st.probes
                  /\ Len(ob.cells) = Len(obs) /\ \A j \in 1..Len(obs) : Len(ob.cells[j]) = Len(ob.probes)
       D == Dropped(ss, c.inp.edits, n)
+      \* an identical record (same observers, table, probes and cells) was judged at step dn of case di
+      \* of this file and nothing failed there: the relation gives the same verdict
+      known == ob.di > 0 /\ ~\E x \in 1..Len(seen) : seen[x].i = ob.di /\ \E r \in seen[x].d : r.n = ob.dn
   IN IF ~premise THEN {[n |-> n, j |-> 0, p |-> 0, c |-> {"C13.premise"}, t |-> {}]}
+     ELSE IF known THEN {}
      ELSE {r \in {LET cell == CellOf(ob, j, p)
                       cl == Clauses(tab, obs[j], ob.probes[p], cell)
                   IN [n |-> n, j |-> j, p |-> p, c |-> cl,
@@ -40,18 +45,18 @@ StepFails(c, obs, ss, n) ==
                             ELSE Tags(tab, obs[j], ob.probes[p], cell, D)] :
                   j \in 1..Len(obs), p \in 1..Len(ob.probes)} : r.c # {}}
 
-Judge(c) ==
+Judge(c, seen) ==
   IF c.exc # "" \/ Len(c.out) # Len(c.inp.edits) + 1
   THEN {[n |-> Len(c.out), j |-> 0, p |-> 0, c |-> {"C13.raised"}, t |-> {}]}
   ELSE LET obs == Data.obsets[c.inp.ox]
            ss  == States(c.inp.probes, c.inp.init, c.inp.edits)
-       IN UNION {StepFails(c, obs, ss, n) : n \in c.from..Len(c.inp.edits)}
+       IN UNION {StepFails(c, obs, ss, n, seen) : n \in c.from..Len(c.inp.edits)}
 
 Init == i = 0 /\ bad = <<>> /\ (N > 0 \/ JsonSerialize(IOEnv.OUT_FILE, <<>>))
 Next ==
   /\ i < N
   /\ i' = i + 1
-  /\ bad' = LET d == Judge(Cases[i + 1])
+  /\ bad' = LET d == Judge(Cases[i + 1], bad)
             IN IF d = {} THEN bad
                ELSE Append(bad, [i |-> i + 1, c |-> UNION {r.c : r \in d}, d |-> d])
   /\ (i' < N \/ JsonSerialize(IOEnv.OUT_FILE, bad'))
